@@ -908,3 +908,44 @@ Proof.
     split; [split; [repeat constructor; simpl; intuition discriminate|eexists; eexists; split; [reflexivity|split; reflexivity]]|].
     split; [simpl; intuition discriminate|]. vm_compute. split; reflexivity.
 Qed.
+
+(* ------------------------------------------------------------------ ModelCreator *)
+Lemma memz_In n l : memz n l = true <-> In n l.
+Proof.
+  unfold memz. rewrite existsb_exists. split.
+  - intros [x [Hx E]]. apply Z.eqb_eq in E. subst. exact Hx.
+  - intros H. exists n. split; [exact H|apply Z.eqb_refl].
+Qed.
+
+Lemma memz_perm n l l' : Permutation l l' -> memz n l = memz n l'.
+Proof.
+  intros H. destruct (memz n l) eqn:E1, (memz n l') eqn:E2; try reflexivity.
+  - apply memz_In in E1. apply (Permutation_in _ H) in E1. apply memz_In in E1. congruence.
+  - apply memz_In in E2. apply (Permutation_in _ (Permutation_sym H)) in E2. apply memz_In in E2. congruence.
+Qed.
+
+Lemma existsb_perm {A : Type} (f : A -> bool) l l' : Permutation l l' -> existsb f l = existsb f l'.
+Proof.
+  induction 1 as [|x l l' _ IH|x y l|l l' l'' _ IH1 _ IH2]; simpl.
+  - reflexivity.
+  - rewrite IH. reflexivity.
+  - destruct (f x), (f y); reflexivity.
+  - congruence.
+Qed.
+
+(* the verdict depends on the SET of given names only *)
+Lemma check_perm s ps ps' : Permutation ps ps' -> check s ps = check s ps'.
+Proof.
+  intros H. unfold check.
+  assert (map (param_problem ps) s = map (param_problem ps') s) as ->.
+  { apply map_ext. intros p. unfold param_problem. rewrite (memz_perm (pn p) ps ps' H). reflexivity. }
+  rewrite (existsb_perm _ ps ps' H). reflexivity.
+Qed.
+
+Lemma creator_checks_all s ps :
+  let r := split_model_params ps in
+  check s (map fst (snd r ++ fst r)) = check s (map fst ps).
+Proof.
+  intros r. apply check_perm. apply Permutation_map.
+  rewrite Permutation_app_comm. apply (proj1 (split_lossless ps)).
+Qed.
